@@ -226,6 +226,32 @@ def analyse(src: Source) -> List[Report]:
         rep.ob("R4.1-has-confirmation", len(sites) >= 1, loc_h, f"{h.name}: {len(sites)} confirmation site(s)",
                "a handler that proposes events from a bounding potential / bound rate must confirm them against the true rate; no "
                "confirmation test with a uniform draw was found in its out-state")
+        # the rates of the confirmation are evaluated at the configuration the event was proposed for: where the out-state routine
+        # advances its in-state to the event time (`_time_slice_all_units_in_state`), every potential derivative is taken after that
+        so = prog.resolve_method(h, "send_out_state")
+        if so is not None:
+            from ..normalize import canon as _canon, flat
+            cf = _canon(prog, h, so[1])
+            top = flat(body_without_docstring(cf))
+
+            def _has(st_: ast.stmt, pred) -> bool:
+                return any(pred(x) for x in ast.walk(st_))
+            is_slice = lambda x: isinstance(x, ast.Call) and isinstance(x.func, ast.Attribute) and x.func.attr in ("_time_slice_all_units_in_state", "_time_slice_unit", "_time_slice_subtree_units")
+            is_rate = lambda x: isinstance(x, ast.Call) and isinstance(x.func, ast.Attribute) and x.func.attr == "derivative" \
+                and "potential" in norm(x.func.value)
+            is_store = lambda x: isinstance(x, ast.Call) and isinstance(x.func, ast.Attribute) and x.func.attr == "_store_in_state"
+            slice_at = [i_ for i_, st_ in enumerate(top) if _has(st_, is_slice)]
+            rate_at = [i_ for i_, st_ in enumerate(top) if _has(st_, is_rate)]
+            store_at = [i_ for i_, st_ in enumerate(top) if _has(st_, is_store) or
+                        (isinstance(st_, ast.Assign) and any(self_attr(t_) == "_state" for t_ in st_.targets))]
+            if store_at and rate_at:
+                # a rate that is evaluated after the received in-state was stored reads that state: it must have been advanced first
+                # (a rate evaluated before the store reads the units of send_event_time, which that method already advanced)
+                s0, r0 = min(store_at), min(rate_at)
+                ok_ = not (s0 < r0) or any(s0 <= t_ < r0 for t_ in slice_at)
+                rep.ob("R4.6-rates-after-time-slice", ok_, Loc(so[0].file, top[r0].lineno, f"{h.name}.send_out_state"),
+                       top[r0], "a potential derivative of the confirmation is evaluated on the freshly stored in-state before that state "
+                       "was advanced to the event time: the acceptance ratio is taken at the configuration of the previous event")
         changers = {name for name, (owner, m) in prog.all_methods(h).items() if any(f == "velocity" for _, f, *_ in stores(m))}
         # transitive: methods calling changers
         grew = True
@@ -393,6 +419,14 @@ def analyse(src: Source) -> List[Report]:
                 n_pairs += 1
                 k, b = pot.get("prefactor"), bnd.get("prefactor")
                 ok = isinstance(k, float) and isinstance(b, float) and k != 0 and abs(b / k) >= claimed * (1 - 1e-12)
+                # the claimed ratio holds for the converged lattice sum: a configuration that truncates the Ewald sums of the true
+                # potential below the defaults the constant was certified for changes the true rate, not the bound
+                for knob in ("fourier_cutoff", "position_cutoff"):
+                    dflt, val_ = default_of(tcls, knob), pot.get(knob)
+                    if dflt is not None and isinstance(val_, (int, float)) and not isinstance(val_, bool):
+                        rep.ob("R4.4-true-potential-converged", val_ >= dflt, Loc(cfg.file, 0, f"[{pot.section}]"), f"{knob} = {val_} (default {dflt})",
+                               f"`{knob}` of the true periodic Coulomb potential is lowered below its default while the bounding prefactor "
+                               f"stays at the ratio certified for the converged sum: the true rate can exceed the bound near contact")
                 rep.ob("R4.4-configured-bound-ratio", ok, Loc(cfg.file, 0, f"[{o.section}]"),
                        f"bound prefactor {b} / true prefactor {k} = {b / k if k else None} >= {claimed}",
                        f"the scaled nearest-image 1/r potential bounds the periodic Coulomb potential only if its prefactor is at least "
@@ -400,6 +434,10 @@ def analyse(src: Source) -> List[Report]:
                        f"{b / k if k else None}")
     rep.unit("configured_coulomb_bound_pairs", n_pairs)
     rep.expect_min("R4.4-configured-bound-ratio", 10)
+    # a bounding rate that is not dimensionally consistent (e.g. a squared length clamped at a pure number) cannot dominate the
+    # true rate at every length scale: units-of-measure inference over the potentials (rule set shared with C03)
+    from .c03 import check_dimensions
+    check_dimensions(prog, src, rep)
     from ..handler_dims import check_handler_dimensions
     check_handler_dimensions(prog, src, rep, "R4.6-handler-dimensions", None)
     rep.unit("thinning_handlers", thinning_handlers)
